@@ -25,7 +25,7 @@ ASSUMPTIONS = ['the token at an offset of a source is taken from the refjs token
                'without position (None or the implied 0:0) is legal and only counted']
 BUDGET_S = {'quick': 60, 'thorough': 700}
 REQUIRED_HITS = ['fragments_positioned', 'fragments_checked', 'renamed_checked', 'multi_source_checked', 'three_level_nesting']
-FLOOR = {'quick': 1500, 'thorough': 30000}
+FLOOR = {'quick': 1500, 'thorough': 20000}
 
 
 class Source(object):
